@@ -31,18 +31,20 @@ MANIFEST = {
             "end) = Core's CHECKMULTISIG matching loop for all signature and key lists with #sigs <= #keys, by induction on both lists; "
             "the four handlers CHECKSIG/CHECKSIGVERIFY/CHECKMULTISIG/CHECKMULTISIGVERIFY = Core's arms for every state (stack depth, "
             "4-byte minimal counts, ranges, NULLDUMMY, NULLFAIL, VERIFY suffix, op-count contribution of the key count); "
-            "eval_instruction = one iteration of Core's loop for every state and ALL 256 opcode values (C03M_step_eq); eval_script = "
-            "EvalScript (verdict and final stack) for EVERY script (C03M_eval_eq; unconditional for witness VMs: C03M_eval_eq_witness); "
-            "check_solution = VerifyScript for every scriptSig, scriptPubKey, witness, flag set and tx context (C03M_verify_eq: "
-            "SIGPUSHONLY, stack copy, P2SH, witness v0 20/32-byte rules, P2WPKH script, 520-byte items, malleation rules, upgradable "
-            "versions, CLEANSTACK, WITNESS_UNEXPECTED; the MINIMALIF/WITNESS_PUBKEYTYPE-only-in-witness hypothesis is discharged from how "
-            "check_solution builds its VMs).",
+            "_delete_signature (bottom-most signature first) = FindAndDelete (top-most first) on every script code whose instructions "
+            "decode (C03M_sigdel_walkable); eval_instruction = one iteration of Core's loop for every state and ALL 256 opcode values "
+            "(C03M_step_eq); eval_script = EvalScript (verdict and final stack) for EVERY script, decodable or not, every initial stack "
+            "of items within 520 bytes, every flag set, both signature versions (C03M_eval_eq; C03M_eval_unwalkable: a script with an "
+            "undecodable instruction fails on both sides); check_solution = VerifyScript for every scriptSig, scriptPubKey, witness, flag "
+            "set and tx context with no hypothesis but ChkWF (C03M_verify_eq: SIGPUSHONLY, stack copy, P2SH, witness v0 20/32-byte rules, "
+            "P2WPKH script, 520-byte items, malleation rules, upgradable versions, CLEANSTACK, WITNESS_UNEXPECTED; the "
+            "MINIMALIF/WITNESS_PUBKEYTYPE-only-in-witness hypothesis is discharged from how check_solution builds its VMs).",
     "note": "Signature verification proper and the hash functions are parameters shared by model and spec (sig-oracle table computed "
             "by the real pycoin sighash + ECDSA on the Python side). The theorems ask of the checker only ChkWF (an empty signature, a "
             "signature the lax DER parser rejects, a key whose length does not fit its first byte never verify: the early exits of "
-            "Core's CheckSig, proved for Spec/Secp256k1.checkSigWith in C03M_chk_wf_core; C03M_chk_wf_needed shows it is needed). For "
-            "base-version VMs the agreement of _delete_signature with FindAndDelete on the script code is the named hypothesis "
-            "SigDelShared / VerifyDelShared (content of property C04, C04_findAndDelete_eq_partial); witness VMs delete nothing. "
+            "Core's CheckSig, proved for Spec/Secp256k1.checkSigWith in C03M_chk_wf_core; C03M_chk_wf_needed shows it is needed). "
+            "C03M_eval_eq asks for initial stack items within 520 bytes (compile_push_data of a >= 4 GiB signature raises struct.error, "
+            "which Core has no counterpart for; every stack check_solution builds satisfies it). "
             "C03M_step_eq_partial / C03M_eval_eq_partial (CHECKSIG family excluded) are kept as they were.",
     "technique": "Lean 4 proof over an executable model + differential correspondence model vs implementation",
 }
